@@ -16,7 +16,7 @@ import (
 	"pgregory.net/rapid"
 )
 
-func TestMain(m *testing.M)   { fdkit.InstallLogger(); vkit.Main(m) }
+func TestMain(m *testing.M)   { c19.CapMemory(); fdkit.InstallLogger(); vkit.Main(m) }
 func TestReplay(t *testing.T) { verifC19Setup(); defer verifC19Teardown(); vkit.Replay(t) }
 
 // VerifC19Copy is one copy_fields entry as parsed paths.
@@ -42,6 +42,7 @@ var verifC19CopyPool = []VerifC19Copy{
 	{From: []string{}, To: []string{"copy"}},
 	{From: []string{"nope"}, To: []string{"absent"}},
 	{From: []string{"service"}, To: []string{"host"}},
+	{From: []string{"k8s"}, To: []string{"fields", "k8s"}},
 }
 
 func verifC19Gen(t *rapid.T) VerifC19Case {
@@ -185,7 +186,22 @@ func verifC19Run(c VerifC19Case) *vkit.Outcome {
 	nontrivial := false
 	for bi, b := range c.Batches {
 		bt := c19.Build(b)
-		atts := verifC19Srv.Drive(b.Plan, func() error { return p.out(&wd, bt.Batch) })
+		var prec any
+		var pstack string
+		atts := verifC19Srv.Drive(b.Plan, func() error {
+			var err error
+			// copy_fields of a subtree that holds a nested container can make the encoder loop forever
+			prec, pstack = c19.Guard("c19splunk", "splunk:out-never-terminates", c, func() { err = p.out(&wd, bt.Batch) })
+			if prec != nil {
+				return nil
+			}
+			return err
+		})
+		if prec != nil {
+			o.Failf(c19.P, "splunk:out-panics", "batch %d: out() panicked: %v\n%s", bi, prec, pstack)
+			bt.Release()
+			break
+		}
 		if len(b.Deliverable()) >= 2 {
 			nontrivial = true
 		}
